@@ -159,6 +159,9 @@ impl<DataInterfaceType: DeduplicationDataInterface> FileDeduper<DataInterfaceTyp
         // Now, go through and process the result of the query.
         let mut cur_idx = 0;
 
+        // Chunks before this index belong to a range that was withheld from dedup by the fragmentation check.
+        let mut defrag_prevented_until = 0;
+
         while cur_idx < chunks.len() {
             let mut dedupe_query = deduped_blocks[cur_idx].take();
 
@@ -187,13 +190,18 @@ impl<DataInterfaceType: DeduplicationDataInterface> FileDeduper<DataInterfaceTyp
                     cur_idx += n_deduped;
                     continue;
                 } else {
-                    dedup_metrics.defrag_prevented_dedup_chunks += n_deduped;
-                    dedup_metrics.defrag_prevented_dedup_bytes += fse.unpacked_segment_bytes as usize;
+                    defrag_prevented_until = defrag_prevented_until.max(cur_idx + n_deduped);
                 }
             }
 
             // Okay, now we need to add new data.
             let n_bytes = chunks[cur_idx].data.len();
+
+            // Count a withheld chunk once, when it is actually stored as new data.
+            if cur_idx < defrag_prevented_until {
+                dedup_metrics.defrag_prevented_dedup_chunks += 1;
+                dedup_metrics.defrag_prevented_dedup_bytes += n_bytes;
+            }
 
             dedup_metrics.total_chunks += 1;
             dedup_metrics.total_bytes += n_bytes;
